@@ -443,6 +443,9 @@ func asciiCase(up bool) func(in any, _ []any) mres {
 		if !ok {
 			return fail()
 		}
+		if !utf8.ValidString(s) {
+			return open("invalid UTF-8")
+		}
 		b := []byte(s)
 		for i, c := range b {
 			if up && 'a' <= c && c <= 'z' {
